@@ -61,8 +61,15 @@ def build_harness(th, race=False):
     bins = sorted(glob.glob(os.path.join(WORK, "bin", "*")), key=os.path.getmtime)
     for old in bins[:-4]:
         shutil.rmtree(old, ignore_errors=True)
-    shutil.copy(os.path.join(REPO, "go.sum"), os.path.join(HARN, "go.sum"))
     cmd = ["go", "test", "-tags", "verif", "-c", "-o", out]
+    if REPO == "/repo":
+        shutil.copy(os.path.join(REPO, "go.sum"), os.path.join(HARN, "go.sum"))
+    else:
+        # development aid (VERIF_REPO=<scratch worktree>): the registered checks always build against /repo
+        alt = os.path.join(WORK, "bin", th, "alt.mod")
+        open(alt, "w").write(open(os.path.join(HARN, "go.mod")).read().replace("=> /repo", "=> " + REPO))
+        shutil.copy(os.path.join(REPO, "go.sum"), alt[:-4] + ".sum")
+        cmd.insert(2, "-modfile=" + alt)
     if race:
         cmd.insert(2, "-race")
     cmd.append(".")
@@ -424,7 +431,8 @@ def check_behavioural(pid, tier, seed):
         "wall_s": round(time.time() - t0, 2), "violations": len(new),
     }
     os.makedirs(os.path.join(ROOT, "evidence"), exist_ok=True)
-    json.dump(ev, open(os.path.join(ROOT, "evidence", pid + ".json"), "w"), indent=1)
+    if not os.environ.get("VERIF_NO_EVIDENCE"):      # (development runs against a scratch worktree leave the evidence alone)
+        json.dump(ev, open(os.path.join(ROOT, "evidence", pid + ".json"), "w"), indent=1)
     return rc
 
 
